@@ -106,8 +106,26 @@ fn header_offsets(b: &[u8]) -> Vec<usize> {
 }
 
 /// structural faults of one base file
-fn structural_faults(b: &[u8]) -> Vec<(String, Vec<u8>)> {
+fn structural_faults(b: &[u8], thorough: bool) -> Vec<(String, Vec<u8>)> {
     let mut out = vec![];
+    if thorough && b.len() <= 200 {
+        // every pair of byte positions x 8 x 8 substitution values
+        let vals = [0x00u8, 0x01, 0x0A, 0x2C, 0x30, 0x7F, 0x80, 0xFF];
+        for p1 in 0..b.len() {
+            for p2 in p1 + 1..b.len() {
+                for v1 in vals {
+                    for v2 in vals {
+                        if b[p1] != v1 && b[p2] != v2 {
+                            let mut m = b.to_vec();
+                            m[p1] = v1;
+                            m[p2] = v2;
+                            out.push((format!("bytes@{}={:#x},@{}={:#x}", p1, v1, p2, v2), m));
+                        }
+                    }
+                }
+            }
+        }
+    }
     for cut in 0..b.len() {
         out.push((format!("truncate@{}", cut), b[..cut].to_vec()));
     }
@@ -166,7 +184,7 @@ fn structural_faults(b: &[u8]) -> Vec<(String, Vec<u8>)> {
 }
 
 /// footers from a mutated POSIX-TZ grammar
-pub fn hostile_footers() -> Vec<String> {
+pub fn hostile_footers(thorough: bool) -> Vec<String> {
     let desig = ["A", "ABC", "<+03>", "<", "<>", "", "é", "AB1"];
     let offs = ["0", "24", "25", "-24:59:59", "1:60", "+", "10000000000", "-1", "1:2:3"];
     let mut rules: Vec<String> = vec![];
@@ -196,11 +214,11 @@ pub fn hostile_footers() -> Vec<String> {
     for (i, r1) in rules.iter().enumerate() {
         for (j, r2) in rules.iter().enumerate() {
             // every rule in each position with a sane partner, and a diagonal of hostile pairs
-            if !(r2 == "M10.5.0" || r1 == "M3.2.0" || (i + j) % 11 == 0) && !(j == 0 || i == 0) {
+            if !thorough && !(r2 == "M10.5.0" || r1 == "M3.2.0" || (i + j) % 11 == 0) && !(j == 0 || i == 0) {
                 continue;
             }
             for (k, t) in times.iter().enumerate() {
-                if (i + j + k) % 3 == 0 || r1.starts_with("M3.5") || t.is_empty() {
+                if thorough || (i + j + k) % 3 == 0 || r1.starts_with("M3.5") || t.is_empty() {
                     v.push(format!("CET-1CEST,{}{},{}", r1, t, r2));
                     v.push(format!("CET-1CEST,{},{}{}", r1, r2, t));
                 }
@@ -222,10 +240,10 @@ pub fn hostile_footers() -> Vec<String> {
     v
 }
 
-fn spaces(_thorough: bool) -> Vec<(String, u64, String, Box<dyn Fn(u64, &mut Acc) + Sync>)> {
+fn spaces(thorough: bool) -> Vec<(String, u64, String, Box<dyn Fn(u64, &mut Acc) + Sync>)> {
     let mut v: Vec<(String, u64, String, Box<dyn Fn(u64, &mut Acc) + Sync>)> = vec![];
     for (label, b) in bases() {
-        let faults = structural_faults(&b);
+        let faults = structural_faults(&b, thorough);
         let n = faults.len() as u64;
         let l2 = label.clone();
         v.push((format!("structural faults of base file {} ({} bytes)", label, b.len()), n + 1, "every truncation, every header count x 8 values (and pairs), version byte x 256, every byte x 8 substitutions, appended garbage".into(), Box::new(move |i, acc| {
@@ -237,7 +255,7 @@ fn spaces(_thorough: bool) -> Vec<(String, u64, String, Box<dyn Fn(u64, &mut Acc
             }
         })));
     }
-    let foot = hostile_footers();
+    let foot = hostile_footers(thorough);
     let nf = foot.len() as u64;
     v.push(("footers from a mutated POSIX-TZ grammar x {v2, v3} x {no table, table}".into(), nf * 4, "impossible months / weeks / days, J0, J366, n365, oversized numbers, times beyond the v2 / v3 limits, missing commas, trailing garbage".into(), Box::new(move |i, acc| {
         let f = &foot[(i / 4) as usize];
